@@ -1,5 +1,7 @@
 #include <AIToolbox/Utils/StorageEigen.hpp>
 
+#include <algorithm>
+
 namespace AIToolbox {
     // StorageVector
 
@@ -20,7 +22,7 @@ namespace AIToolbox {
         const auto currSize = vector.size();
 
         if (storage_.size() == currSize)
-            storage_.conservativeResize(currSize * 2);
+            storage_.conservativeResize(std::max<Eigen::Index>(1, currSize * 2));
 
         storage_[currSize] = val;
 
@@ -34,8 +36,12 @@ namespace AIToolbox {
     }
 
     void StorageVector::reserve(const size_t size) {
-        if (storage_.size() < (long int)size)
+        if (storage_.size() < (long int)size) {
+            // The resize moves the data: the view must follow it.
+            const auto currSize = vector.size();
             storage_.conservativeResize(size);
+            new (&vector) Eigen::Ref<Vector>(storage_.head(currSize));
+        }
     }
 
     // StorageMatrix2D
@@ -57,7 +63,7 @@ namespace AIToolbox {
         const auto currRows = matrix.rows();
 
         if (storage_.rows() == currRows)
-            storage_.conservativeResize(currRows * 2, Eigen::NoChange);
+            storage_.conservativeResize(std::max<Eigen::Index>(1, currRows * 2), Eigen::NoChange);
 
         new (&matrix) Eigen::Ref<Matrix2D>(storage_.topRows(currRows + 1));
     }
@@ -69,7 +75,11 @@ namespace AIToolbox {
     }
 
     void StorageMatrix2D::reserve(const size_t rows) {
-        if (storage_.rows() < (long int)rows)
+        if (storage_.rows() < (long int)rows) {
+            // The resize moves the data: the view must follow it.
+            const auto currRows = matrix.rows();
             storage_.conservativeResize(rows, Eigen::NoChange);
+            new (&matrix) Eigen::Ref<Matrix2D>(storage_.topRows(currRows));
+        }
     }
 }
